@@ -2,6 +2,7 @@ package main
 
 import (
 	"fmt"
+	"github.com/brocaar/lorawan/backend"
 
 	"github.com/brocaar/lorawan"
 )
@@ -106,6 +107,40 @@ func (c *ctx) provoke() {
 		var p lorawan.PHYPayload
 		p.UnmarshalBinary(c.bytesN(c.rnd.Intn(30)))
 		lorawan.EncryptFOpts(k, true, true, lorawan.DevAddr{}, 1, c.bytesN(16+c.rnd.Intn(4)))
+		return nil
+	})
+}
+
+// disturb: one time in three, OTHER values are encoded between obtaining an encoding result and reading it: a result that
+// was handed out must not change when the library is used again (no result lives in a buffer the library re-uses).
+var curCtx *ctx
+
+func disturb() {
+	c := curCtx
+	if c == nil || c.rnd.Intn(3) != 0 {
+		return
+	}
+	observeFast(func() error {
+		phy := valToPhy(c.genDataFrame(false), false)
+		phy.MarshalBinary()
+		phy.MarshalText()
+		k := cmdKeys[c.rnd.Intn(len(cmdKeys))]
+		valToPayload(k, c.genCmdVal(k, true)).MarshalBinary()
+		var e lorawan.EUI64
+		var a lorawan.AES128Key
+		var d lorawan.DevAddr
+		var n lorawan.NetID
+		copy(e[:], c.bytesN(8))
+		copy(a[:], c.bytesN(16))
+		copy(d[:], c.bytesN(4))
+		copy(n[:], c.bytesN(3))
+		e.MarshalText()
+		a.MarshalText()
+		d.MarshalText()
+		n.MarshalText()
+		d.MarshalBinary()
+		n.MarshalBinary()
+		backend.HEXBytes(c.bytesN(9)).MarshalText()
 		return nil
 	})
 }
